@@ -580,7 +580,8 @@ func c02HugeSparse(w *mon.W, idx int) {
 func c02Huge(w *mon.W, _ int) {
 	nw := 1<<25 - 1
 	n := int64(nw) * 64
-	words := make([]uint64, nw)
+	words, release := hugeZeroWords(nw)
+	defer release()
 	var P []int64
 	for p := int64(0); p < 70; p += 2 { // more than 32 ones: several select-index entries
 		P = append(P, p)
